@@ -1,4 +1,5 @@
-(* Generic lemmas used by the C04 simulation proof (RelC04.v):
+(* Generic lemmas and definitions used by the C04 simulation proof (RelC04.v); the brute-force effect
+   lemmas live in LemC04i/s/t/n/g/o/c.v, which import only this file, so that they compile side by side:
    - a multiset-as-list removal [rem1];
    - a forward-simulation theorem with a ghost (history) component next to the observer;
    - effect lemmas: how one accepted [step_core] / [flush] changes the few parts of the model state the
@@ -150,61 +151,28 @@ Proof.
   rewrite N.eqb_eq. split; congruence.
 Qed.
 
-(* ---- model side: effect of one accepted step_core on the instances --------------------------------- *)
+(* ---- shared by the effect-lemma files ----------------------------------------------------------------- *)
 Ltac kind_cases H :=
   unfold_steps H; unfold own_inst in H; cbn [fst snd] in H; break_step H;
   repeat match goal with E : (match _ with _ => _ end) = Some _ |- _ => break_step E end;
   repeat match goal with E : _ = ?s' |- _ => is_var s'; subst s' end.
 
-Definition inst_eff (s : sys) (th : tid) (e : event) (s' : sys) : Prop :=
-  forall j x, get j (insts s) = Some x -> exists x', get j (insts s') = Some x' /\
-    cl (pc x') = (if own (thinst s) th j then cl_next e (cl (pc x)) else cl (pc x)) /\
-    alive x' = alive_next (own (thinst s) th j) e j (alive x) /\
-    exited x' = exited_next (own (thinst s) th j) e j (exited x).
 
-Ltac inst_eff_tac :=
-  intros jj xx Hjj;
-  repeat (sup_simpl; match goal with |- context[insts ?X] =>
-    match X with
-    | match ?b with _ => _ end => destruct b eqn:?
-    | if ?b then _ else _ => destruct b eqn:?
-    end end);
-  sup_simpl; cbn -[get Assoc.set N.eqb]; sup_simpl; cbn -[get Assoc.set N.eqb];
-  repeat match goal with
-  | |- context[N.eqb ?a jj] => destruct (N.eqb_spec a jj); [subst|]
-  end;
-  repeat match goal with
-  | H1 : get ?i ?m = Some ?a, H2 : get ?i ?m = Some ?b |- _ => assert (a = b) by congruence; subst; clear H2
-  end;
-  repeat match goal with H : get jj (insts _) = _ |- _ => rewrite H end; cbn [option_map];
-  (eexists; split; [reflexivity|]); unfold own;
-  repeat match goal with E : get _ (thinst _) = _ |- _ => rewrite E end; cbn [opt_eqb];
-  repeat match goal with
-  | |- context[N.eqb ?a ?a] => rewrite N.eqb_refl
-  | H : ?a <> ?b |- context[N.eqb ?a ?b] => rewrite (proj2 (N.eqb_neq a b) H)
-  end; cbn;
-  repeat match goal with E : pc _ = _ |- _ => rewrite E end;
-  repeat match goal with
-  | |- context[if ?b then _ else _] => destruct b
-  | |- context[match ?b with _ => _ end] => destruct b
-  end; cbn; repeat split; reflexivity.
+(* [sup_simpl] on the goal only: the hypotheses produced by [kind_cases] talk about the pre-state, which
+   contains no update to rewrite *)
+Ltac sup_goal :=
+  unfold set_pc, end_finish, end_release_early;
+  autorewrite with sup; cbn [fst snd option_map].
 
-Lemma own_eff s th e s' : step_own s th e = Some s' -> inst_eff s th e s'.
-Proof. intros H. unfold inst_eff. destruct e; kind_cases H; inst_eff_tac. Qed.
-Lemma reg_eff s th e s' : step_reg s th e = Some s' -> (forall i n, e <> ENewInst i n) -> inst_eff s th e s'.
-Proof. intros H Hn. unfold inst_eff. destruct e; try (exfalso; eapply Hn; reflexivity); kind_cases H; inst_eff_tac. Qed.
-Lemma api_eff s th e s' : step_api s th e = Some s' -> inst_eff s th e s'.
-Proof. intros H. unfold inst_eff. destruct e; kind_cases H; inst_eff_tac. Qed.
-Lemma stop_eff s th e s' : step_stop s th e = Some s' -> inst_eff s th e s'.
-Proof. intros H. unfold inst_eff. destruct e; kind_cases H; inst_eff_tac. Qed.
-Lemma state_eff s th i s0 s' : step_state s th i s0 = Some s' -> inst_eff s th (EState i s0) s'.
-Proof. intros H. unfold inst_eff. kind_cases H; inst_eff_tac. Qed.
-Lemma procend_eff s th i s0 b s' : step_procend s th i s0 b = Some s' -> inst_eff s th (if b then EProcEnd i s0 else EProcEnded i s0) s'.
-Proof. intros H. unfold inst_eff. destruct b; kind_cases H; inst_eff_tac. Qed.
-Lemma ordered_eff s th i s' : step_ordered_go s th i = Some s' -> inst_eff s th (EOrderedGo i) s'.
-Proof. intros H. unfold inst_eff. kind_cases H; inst_eff_tac. Qed.
-Lemma env_eff s th e s' : step_env s th e = Some s' -> inst_eff s th e s'.
-Proof. intros H. unfold inst_eff. destruct e; kind_cases H; inst_eff_tac. Qed.
+Ltac destr_state :=
+  repeat (sup_goal; match goal with
+    | |- context[?f ?X] =>
+      match type of X with sys =>
+        match X with
+        | match ?b with _ => _ end => destruct b eqn:?
+        | if ?b then _ else _ => destruct b eqn:?
+        end end end).
+
 
 Lemma fold_upd_inst_proj {A} (P : sys -> A) (f : inst -> inst) l :
   (forall i s, P (upd_inst i f s) = P s) -> forall s, P (fold_left (fun s i => upd_inst i f s) l s) = P s.
@@ -222,37 +190,21 @@ Proof.
   destruct (IH _ _ _ Hy) as (x' & ? & ? & ? & ?). exists x'. repeat split; congruence.
 Qed.
 
-Lemma shutdown_eff s th e s' : step_shutdown s th e = Some s' -> inst_eff s th e s'.
+
+Lemma fold_upd_inst_none (f : inst -> inst) l : forall s j, get j (insts s) = None ->
+  get j (insts (fold_left (fun s i => upd_inst i f s) l s)) = None.
 Proof.
-  intros H. unfold inst_eff. destruct e; kind_cases H; try inst_eff_tac.
-  intros j x Hj. cbn -[get].
-  destruct (fold_upd_inst_get (fun x0 : inst => x0 <| f_stopped := true |>) order (fun y => ltac:(cbn; auto)) s j x Hj)
-    as (x' & Hx' & Hp & Ha & He).
-  exists x'. split; [exact Hx'|]. rewrite Hp, Ha, He. destruct (own _ _ _); cbn; auto.
+  induction l as [|a l IH]; intros s j Hj; cbn; [exact Hj|]. apply IH. rewrite insts_upd_inst, Hj. now destruct (N.eqb a j).
 Qed.
 
-Lemma core_inst_eff s th e s' : step_core s th e = Some s' -> (forall i n, e <> ENewInst i n) -> inst_eff s th e s'.
-Proof.
-  intros H Hn. destruct (step_core_kind _ _ _ _ H) as [? ?|i x ? ? ? ? ? ?|Hk|Hk|Hk|i s0 ? Hk|i s0 b ? Hk|Hk|i ? Hk|Hk|Hk]; subst.
-  - intros j x Hj. exists x. split; [exact Hj|]. destruct (own _ _ _); cbn; auto.
-  - intros j y Hj. exists y. split; [exact Hj|]. destruct (own _ _ _); cbn; auto.
-  - now apply reg_eff.
-  - now apply api_eff.
-  - now apply stop_eff.
-  - now apply state_eff.
-  - now apply procend_eff.
-  - now apply shutdown_eff.
-  - now apply ordered_eff.
-  - now apply env_eff.
-  - now apply own_eff.
-Qed.
 
-Lemma newinst_eff s th i n s' : step_core s th (ENewInst i n) = Some s' ->
-  get i (insts s) = None /\ exists c, forall j, get j (insts s') = if N.eqb i j then Some (new_inst n c) else get j (insts s).
-Proof.
-  intros H. cbn in H. unfold step_reg in H. break_step H. subst s'. apply negb_true_iff in E0. unfold has in E0.
-  destruct (get i (insts s)) eqn:Ei; [discriminate|]. split; [reflexivity|]. exists p. intros j. cbn. apply get_set.
-Qed.
+(* the effect summaries *)
+Definition inst_eff (s : sys) (th : tid) (e : event) (s' : sys) : Prop :=
+  forall j x, get j (insts s) = Some x -> exists x', get j (insts s') = Some x' /\
+    cl (pc x') = (if own (thinst s) th j then cl_next e (cl (pc x)) else cl (pc x)) /\
+    alive x' = alive_next (own (thinst s) th j) e j (alive x) /\
+    exited x' = exited_next (own (thinst s) th j) e j (exited x).
+
 
 (* scalar parts and the other threads *)
 Definition scal_eff (s : sys) (th : tid) (e : event) (s' : sys) : Prop :=
@@ -261,59 +213,40 @@ Definition scal_eff (s : sys) (th : tid) (e : event) (s' : sys) : Prop :=
   thinst s' = (match e with EBegin i => set th i (thinst s) | _ => thinst s end) /\
   (forall th', th' <> th -> get_thread s' th' = get_thread s th').
 
-Ltac destr_state :=
-  repeat (sup_simpl; match goal with
-    | |- context[?f ?X] =>
-      match type of X with sys =>
-        match X with
-        | match ?b with _ => _ end => destruct b eqn:?
-        | if ?b then _ else _ => destruct b eqn:?
-        end end end).
 
-Ltac scal_tac :=
-  unfold scal_eff; destr_state; sup_simpl; cbn -[get Assoc.set N.eqb get_thread]; sup_simpl; cbn -[get Assoc.set N.eqb get_thread];
-  repeat split; try reflexivity;
-  try (intros th' Hth'; unfold get_thread; sup_simpl; cbn -[get Assoc.set N.eqb]; sup_simpl; cbn -[get Assoc.set N.eqb]; rewrite ?(proj2 (N.eqb_neq _ _) (not_eq_sym Hth')); reflexivity).
+(* the thread of the event *)
+Definition thr_eff (s : sys) (th : tid) (e : event) (s' : sys) : Prop :=
+  (pend (get_thread s th) = None -> pk (pend (get_thread s' th)) = pk_next e) /\
+  (dpc (get_thread s th) = DNone -> e <> EShutdownCall -> dpc (get_thread s' th) = DNone) /\
+  (has th (thinst s) = true -> apc (get_thread s th) = ANone -> apc (get_thread s' th) = ANone).
 
-Lemma own_scal s th e s' : step_own s th e = Some s' -> scal_eff s th e s'.
-Proof. intros H. destruct e; kind_cases H; scal_tac. 
-Qed.
-Lemma reg_scal s th e s' : step_reg s th e = Some s' -> scal_eff s th e s'.
-Proof. intros H. destruct e; kind_cases H; scal_tac. Qed.
-Lemma api_scal s th e s' : step_api s th e = Some s' -> scal_eff s th e s'.
-Proof. intros H. destruct e; kind_cases H; scal_tac. Qed.
-Lemma stop_scal s th e s' : step_stop s th e = Some s' -> scal_eff s th e s'.
-Proof. intros H. destruct e; kind_cases H; scal_tac. Qed.
-Lemma state_scal s th i s0 s' : step_state s th i s0 = Some s' -> scal_eff s th (EState i s0) s'.
-Proof. intros H. kind_cases H; scal_tac. Qed.
-Lemma procend_scal s th i s0 b s' : step_procend s th i s0 b = Some s' -> scal_eff s th (if b then EProcEnd i s0 else EProcEnded i s0) s'.
-Proof. intros H. destruct b; kind_cases H; scal_tac. Qed.
-Lemma ordered_scal s th i s' : step_ordered_go s th i = Some s' -> scal_eff s th (EOrderedGo i) s'.
-Proof. intros H. kind_cases H; scal_tac. Qed.
-Lemma env_scal s th e s' : step_env s th e = Some s' -> scal_eff s th e s'.
-Proof. intros H. destruct e; kind_cases H; scal_tac. Qed.
-Lemma shutdown_scal s th e s' : step_shutdown s th e = Some s' -> scal_eff s th e s'.
-Proof. intros H. destruct e; kind_cases H; try scal_tac.
-  - apply (fold_upd_inst_proj wg). intros. apply upd_inst_wg.
-  - apply (fold_upd_inst_proj code_set). intros. apply upd_inst_code_set.
-  - apply (fold_upd_inst_proj proj_code). intros. apply upd_inst_proj_code.
-  - apply (fold_upd_inst_proj thinst). intros. apply upd_inst_thinst.
-  - intros th' Hth'. unfold get_thread. cbn -[get Assoc.set N.eqb]. rewrite get_set_other by congruence.
-    rewrite (fold_upd_inst_proj threads); [reflexivity|]. intros. apply upd_inst_threads.
-Qed.
 
-Lemma core_scal s th e s' : step_core s th e = Some s' -> scal_eff s th e s'.
+Definition none_eff (s : sys) (th : tid) (e : event) (s' : sys) : Prop :=
+  forall j, get j (insts s) = None -> (forall n, e <> ENewInst j n) -> get j (insts s') = None.
+
+
+(* hardened model: the creation stage of instances *)
+Lemma upd_inst_stage i f s : stage (upd_inst i f s) = stage s. Proof. frame_tac. Qed.
+Lemma upd_vis_stage n f s : stage (upd_vis n f s) = stage s. Proof. frame_tac. Qed.
+Lemma set_thread_stage th t s : stage (set_thread th t s) = stage s. Proof. reflexivity. Qed.
+Lemma write_status_stage n s0 s : stage (write_status n s0 s) = stage s.
+Proof. unfold write_status. now rewrite upd_vis_stage. Qed.
+#[export] Hint Rewrite upd_inst_stage upd_vis_stage set_thread_stage write_status_stage : sup.
+
+Lemma at_stage_get s th i k : at_stage s th i k = true -> get i (stage s) = Some (th, k).
 Proof.
-  intros H. destruct (step_core_kind _ _ _ _ H) as [? ?|i x ? ? ? ? ? ?|Hk|Hk|Hk|i s0 ? Hk|i s0 b ? Hk|Hk|i ? Hk|Hk|Hk]; subst.
-  - repeat split; reflexivity.
-  - repeat split; reflexivity.
-  - now apply reg_scal.
-  - now apply api_scal.
-  - now apply stop_scal.
-  - now apply state_scal.
-  - now apply procend_scal.
-  - now apply shutdown_scal.
-  - now apply ordered_scal.
-  - now apply env_scal.
-  - now apply own_scal.
+  unfold at_stage. destruct (get i (stage s)) as [[t k']|]; [|discriminate]. intros H.
+  apply andb_true_iff in H. destruct H as [H1 H2]. apply N.eqb_eq in H1. apply Nat.eqb_eq in H2. now subst.
 Qed.
+
+
+Definition stage_eff (s : sys) (th : tid) (e : event) (s' : sys) : Prop :=
+  match e with
+  | ENewInst i _ => stage s' = set i (th, 0) (stage s)
+  | EState i _ => stage s' = stage s \/ (stage s' = set i (th, 1) (stage s) /\ get i (stage s) = Some (th, 0))
+  | ERegAdd i _ => stage s' = set i (th, 2) (stage s) /\ get i (stage s) = Some (th, 1)
+  | ESpawn i _ => stage s' = set i (th, 3) (stage s) /\ get i (stage s) = Some (th, 2)
+  | EBegin i => stage s' = del i (stage s) /\ exists c, get i (stage s) = Some (c, 3)
+  | _ => stage s' = stage s
+  end.
+
